@@ -103,6 +103,23 @@ def dof_problem(host, x, z, Y, lam, d, eig, kw):
     return 'ok', None
 
 
+def weight_pattern(rng, shape, k, integer=False):
+    """weights of a given PATTERN (stratified by k, not drawn at random): generic, constant != 1, all ones, a 0/1 mask, generic with a
+    few zeros — degenerate patterns take shortcuts in array algebra"""
+    kind = ['generic', 'constant', 'generic', 'ones', 'mask', 'zeros-in-generic'][k % 6]
+    if kind == 'generic':
+        W = rng.integers(1, 5, shape).astype(float) if integer else np.round(rng.uniform(0.05, 1, shape) * 64) / 64
+    elif kind == 'constant':
+        W = np.full(shape, float([3, 2, 5][k % 3]) if integer else [0.25, 2.0, 0.5][k % 3])
+    elif kind == 'ones':
+        W = np.ones(shape)
+    elif kind == 'mask':
+        W = (rng.random(shape) < 0.7).astype(float)
+    else:
+        W = rng.integers(0, 5, shape).astype(float) if integer else np.round(rng.uniform(0.05, 1, shape) * 64) / 64 * (rng.random(shape) < 0.85)
+    return W, kind
+
+
 def correspond(ctx):
     from pybaselines import Baseline, Baseline2D
     from pybaselines.two_d import _whittaker_utils as wu, _spline_utils as su2
@@ -116,11 +133,12 @@ def correspond(ctx):
             dis.append(Disagreement('c20.corpus', d['signature'], f'corpus {os.path.basename(f)}: {r}', d['replay'], True))
     lines, metas = [], []
     # ---- (a) array algebra of the real objects vs the Lean model on small integer-valued bases
-    for _ in range(12 if ctx.thorough else 5):
+    for it in range(12 if ctx.thorough else 6):
         m, n, a, b = int(rng.integers(2, 6)), int(rng.integers(2, 6)), int(rng.integers(1, 4)), int(rng.integers(1, 4))
         Br = rng.integers(-3, 4, (m, a)).astype(float)
         Bc = rng.integers(-3, 4, (n, b)).astype(float)
-        W = rng.integers(0, 5, (m, n)).astype(float)
+        W, wkind = weight_pattern(rng, (m, n), it + ctx.seed, integer=True)
+        ctx.count('weights-pattern:' + wkind)
         Y = rng.integers(-5, 6, (m, n)).astype(float)
         coef = rng.integers(-4, 5, a * b).astype(float)
         obj = wu.WhittakerSystem2D.__new__(wu.WhittakerSystem2D)
@@ -143,12 +161,13 @@ def correspond(ctx):
         lines.append(f'c20.pen {q(lr)} {q(lc)} {qs(er)} {qs(ec)}')
         metas.append(('pen', np.repeat(lr * er, b) + np.tile(lc * ec, a), (a, b)))
     # PSpline2D basis algebra
-    for _ in range(6 if ctx.thorough else 3):
+    for it in range(12 if ctx.thorough else 6):
         m, n = int(rng.integers(6, 12)), int(rng.integers(6, 12))
         x, z = np.sort(rng.uniform(0, 1, m)), np.sort(rng.uniform(0, 1, n))
         nk, deg = (int(rng.integers(3, 6)), int(rng.integers(3, 6))), (int(rng.integers(1, 4)), int(rng.integers(1, 4)))
         basis = su2.SplineBasis2D(x, z, nk, deg)
-        W = rng.uniform(0, 1, (m, n))
+        W, wkind = weight_pattern(rng, (m, n), it + ctx.seed)
+        ctx.count('weights-pattern:' + wkind)
         F = basis._make_btwb(W)
         F = F.toarray() if hasattr(F, 'toarray') else np.asarray(F)
         K = np.kron(basis.basis_r.toarray(), basis.basis_c.toarray())
@@ -158,8 +177,10 @@ def correspond(ctx):
                                     {'kind': 'btwb-spline', 'nk': list(nk), 'deg': list(deg)}, True))
     # ---- (b) WhittakerSystem2D.solve: eigen hypotheses, full vs direct, truncated vs Galerkin
     shapes = [(7, 7), (9, 6), (6, 9), (12, 12), (5, 8), (10, 10)] + ([(20, 15), (16, 16)] if ctx.thorough else [])
+    wk = ctx.seed
     for (m, n) in shapes:
         for _ in range(3 if ctx.thorough else 2):
+            wk += 1
             dr, dc = int(rng.integers(1, min(4, m - 2) + 1)), int(rng.integers(1, min(4, n - 2) + 1))
             if m == n and rng.random() < 0.7:
                 while dc == dr:
@@ -173,7 +194,10 @@ def correspond(ctx):
                 kr, kc = int(rng.integers(dr + 1, m + 1)), int(rng.integers(dc + 1, n + 1))
             lamr, lamc = float(10.0 ** int(rng.integers(-1, 4))), float(10.0 ** int(rng.integers(-1, 4)))
             x, z, Y = M.make_data2d(rng, m, n)
-            W = np.round(rng.uniform(0.05, 1, (m, n)) * 64) / 64
+            W, wkind = weight_pattern(rng, (m, n), wk)
+            if wkind in ('mask', 'zeros-in-generic'):      # the solve needs a positive definite system
+                W = np.maximum(W, 1.0 / 64)
+            ctx.count('weights-pattern:' + wkind)
             meta = {'kind': 'solve', 'shape': [m, n], 'd': [dr, dc], 'eig': [kr, kc], 'lam': [lamr, lamc], 'Y': Y.tolist(), 'W': W.tolist()}
             try:
                 with np.errstate(all='ignore'):
